@@ -152,8 +152,15 @@ def ref_offsets(subs):
 
 
 def check_item(item, part, ebt):
+    """The same recipe is built and split twice in one process, with fresh mesh-independent objects (coefficients,
+    arguments) the second time: what was computed for the first form must not be handed out for the second."""
+    _check_item(item, part, ebt, "")
+    _check_item(item, part, ebt, "#rebuilt")
+
+
+def _check_item(item, part, ebt, tag):
     name, style, arity, spec = item
-    key0 = f"{name}|{style}|arity{arity}|{spec}"
+    key0 = f"{name}|{style}|arity{arity}|{spec}{tag}"
     try:
         W = World(name, style)
         F = None
